@@ -65,6 +65,7 @@ var specs = map[string]*propSpec{
 		},
 		Batches: []batch{
 			{Name: "history", Flavour: "plain", Quick: 60000, Thorough: 3000000, PerProc: 2000, Progress: true, TimeoutS: 600},
+			{Name: "history-optdec+vm", Flavour: "plain", Env: []string{"SONIC_USE_OPTDEC=1", "SONIC_ENCODER_USE_VM=1"}, Quick: 20000, Thorough: 1000000, PerProc: 2000, Progress: true, TimeoutS: 600},
 		},
 	},
 	"C05": {
